@@ -344,6 +344,9 @@ func (r *mxRunner) begin() string {
 			tr.Codec = &codecs.Opus{ChannelCount: 2}
 		case "vp9", "av1", "h265":
 			tr.Codec = mxOtherCodec(t.codec)
+			if t.bf && t.codec == "h265" {
+				tr.Codec = &codecs.H265{VPS: bf5VPS, SPS: bf5SPS, PPS: bf5PPS}
+			}
 		}
 		t.track = tr
 		m.Tracks = append(m.Tracks, tr)
@@ -481,7 +484,11 @@ func (r *mxRunner) write(a map[string]string) string {
 		}
 		err = r.m.WriteOpus(t.track, ntp, pts, pkts)
 	default:
-		err = mxWriteOther(r, t, ntp, pts, ra, par, int(pays[0]), fill)
+		if t.bf && t.codec == "h265" {
+			err = r.m.WriteH265(t.track, ntp, pts, bf5BuildAU(par, int(atoi64(a["bf"])), int(pays[0])))
+		} else {
+			err = mxWriteOther(r, t, ntp, pts, ra, par, int(pays[0]), fill)
+		}
 	}
 	r.orc.noteWrite(ti, a, err)
 	if err != nil {
